@@ -3,7 +3,13 @@
 Engine D (bounded-exhaustive enumeration).  Inputs are built as
     schema  x  instance (value alphabets with hazard strings)  x  every sequence of <=2 (quick) / <=3 (thorough)
     corruption operators  x  strategy order (all 64 non-empty ordered subsets + the default)  x  {fold, fold_enhanced}
-and every one is folded by the real Chaperone.  The oracle is written from the property statement; the references
+and every one is folded by the real Chaperone.  One more family (schema Memo) is the product
+    escape-hazard string (backslash runs, trailing backslash, backslash-quote, quote + structural characters)
+    x  repair-target string (Python literals, NaN/undefined, trailing commas, single quotes, unquoted-key text)
+in both orders, as neighbouring string fields and as neighbouring list elements, run under the purely syntactic
+operators only (the inputs on which a REPAIR result has a reference value): where a string literal ends decides which
+text a repair may touch, so a hazard value must be followed by a value that a repair rule would rewrite.
+The oracle is written from the property statement; the references
 are json.loads and pydantic's model_validate, never the implementation's tables (the repair table is read only to
 NAME the culprit rule of a finding, never to decide one).
 
@@ -81,11 +87,34 @@ class Post(BaseModel):
     flag: bool = False
 
 
-SCHEMAS = {c.__name__: c for c in (Person, Quote, Tagged, Note, Outer, Post)}
+class Memo(BaseModel):
+    """Escape-hazard family: two string fields around a list of strings, then real literals (bool / null)."""
+    a: str
+    tags: list[str]
+    b: str
+    ok: bool
+    opt: Optional[str] = None
+
+
+SCHEMAS = {c.__name__: c for c in (Person, Quote, Tagged, Note, Outer, Post, Memo)}
 
 HAZ = ["Ada", "None", "True story", "x,}", "it's", "a: 'b'", "ratio: NaN", "{not json}", "two  spaces", "", "é☃",
        "False alarm", "[1, 2,]", "k: undefined", "x, y: z", 'say "hi"', "{a: 1}", "NaN", "\ud800"]
-HAZ_Q = HAZ[:9]  # quick tier
+# Values that stress JSON string escaping: where a string literal ends is decided by backslash parity and by quotes.
+BS, DQ = "\\", '"'
+ESC = ["C:" + BS + "dir" + BS,  # ends in one backslash
+       BS, BS * 2, BS * 3,  # runs of odd / even length (the whole value)
+       "x" + BS * 2 + "y" + BS * 2,  # even run inside and at the end
+       "say " + BS + DQ + "hi",  # backslash then quote
+       "end" + BS + DQ,  # ... at the end
+       "w" + BS * 2 + DQ,  # two backslashes then quote
+       DQ, "a" + DQ + "b" + DQ + "c",  # lone quote, two quotes
+       "q" + DQ + ", ", DQ + "}", DQ + ": ", DQ + "]"]  # a quote followed by structural characters
+# Values that contain text a repair rule is looking for (Python literals, typos, trailing commas, single quotes,
+# unquoted keys).
+TGT = ["None", "True", "False", "x: NaN", "k: undefined", "a, }", "[1, ]", "'k': 'v'", "{key: 1", "z, key: v"]
+HAZ += [ESC[0], ESC[5], ESC[11]]
+HAZ_Q = HAZ[:9] + HAZ[-3:]  # quick tier
 
 
 def instances(tier):
@@ -102,6 +131,10 @@ def instances(tier):
         out["Tagged"].append({"tags": [hz[j], hz[j + 1]], "n": j})
     out["Tagged"] += [{"tags": [], "n": 1}, {"tags": ["solo"], "n": 2}]
     out["Note"] += [{"note": None, "k": 1}, {"k": 2}]
+    # escape hazard x repair target, in both orders, as neighbouring fields and as neighbouring list elements
+    for i, (e, t) in enumerate(itertools.product(ESC, TGT)):
+        for x, y in ((e, t), (t, e)):
+            out["Memo"].append({"a": x, "tags": [x, y], "b": y, "ok": i % 2 == 0, "opt": None})
     return out
 
 
@@ -112,6 +145,7 @@ DECOY = {
     "Note": {"note": "decoy", "k": 99},
     "Outer": {"inner": {"a": 99, "s": "decoy"}, "label": "decoy"},
     "Post": {"title": "decoy", "count": 99},
+    "Memo": {"a": "decoy", "tags": ["decoy"], "b": "decoy", "ok": False},
 }
 
 # ----------------------------------------------------------------------------------------------
@@ -125,6 +159,9 @@ FLAG_OPS = ("single_quotes", "trailing_commas", "py_literals", "unquoted_keys", 
 DATA_OPS = ("num_as_str", "bool_as_str", "list_as_commastr", "str_as_num", "drop_last_field", "deep_field")
 LAYER_OPS = ("fence_json", "fence_bare", "prose", "xml_tags", "decoy_other", "decoy_valid", "deep_wrap")
 SYNTACTIC_LAYERS = {"fence_json", "fence_bare", "prose", "xml_tags"}
+# Schemas whose instances are run under the purely syntactic operators only (the inputs for which a REPAIR result has a
+# reference value); the instance alphabet of such a family is a product and is too large for the full operator alphabet.
+SYNTACTIC_ONLY = {"Memo"}
 
 
 def _map_leaves(v, f):
@@ -265,7 +302,9 @@ class Doc:
         return text, syntactic
 
 
-def op_alphabet(base_data):
+def op_alphabet(schema, base_data):
+    if schema in SYNTACTIC_ONLY:
+        return list(FLAG_OPS) + [o for o in LAYER_OPS if o in SYNTACTIC_LAYERS]
     n = len(tokens(base_data, frozenset()))
     return list(FLAG_OPS) + list(DATA_OPS) + list(LAYER_OPS) + [f"trunc@{k}" for k in range(1, n)]
 
@@ -587,7 +626,7 @@ def work(task):
     viols = {}
     n = {"sequences": 0, "sequences_distinct": 0, "inputs": 0, "inputs_all_orders": 0, "folds": 0, "nontrivial": 0, "clean_inputs": 0,
          "syntactic_inputs": 0, "repair_unjudged": 0, "reduction_checked": 0, "reduction_mismatch": 0}
-    for seq in sequences(op_alphabet(data), maxlen):
+    for seq in sequences(op_alphabet(schema, data), maxlen):
         n["sequences"] += part == 0
         doc = build(schema, data, seq)
         raw, syntactic = doc.render()
@@ -667,9 +706,10 @@ def run(ctx):
         traces_validated_against_impl=tot["folds"],
         evaluations=tot["folds"],
         distinct_nontrivial=len(distinct_nt),
-        rule="engine D: 6 schemas x instances (hazard-string alphabets) x every corruption-operator sequence up to the "
-        "length bound (flag/data operators not repeated, at most one truncation), rendered and de-duplicated per "
-        "instance; each distinct raw text is folded by fold and fold_enhanced under the default order and all 64 "
+        rule="engine D: 7 schemas x instances (hazard-string alphabets; schema Memo: the product escape-hazard string x "
+        "repair-target string in both orders as neighbouring fields and list elements) x every corruption-operator "
+        "sequence up to the length bound (flag/data operators not repeated, at most one truncation; Memo: the 9 purely "
+        "syntactic operators only), rendered and de-duplicated per instance; each distinct raw text is folded by fold and fold_enhanced under the default order and all 64 "
         "non-empty ordered strategy subsets (inputs of the longest sequence length in the thorough tier: default, 4 "
         "single strategies and the reversed order, justified by the checked order reduction); states = distinct "
         "(schema, raw text), transitions = fold calls; non-trivial = inputs that at least one fold accepts",
@@ -678,6 +718,8 @@ def run(ctx):
         all_orders_up_to_operators=cfg["full_len"],
         schemas=len(SCHEMAS),
         instances=sum(len(v) for v in inst.values()),
+        escape_hazard_values=len(ESC),
+        repair_target_values=len(TGT),
         operator_sequences=tot["sequences"],
         orders=len(ALL_ORDERS),
         order_reduction_checked_on=tot["reduction_checked"],
